@@ -126,6 +126,36 @@ func signhistImpl(a map[string]any) (res any) {
 			k.KeyID = keys[num("id")].KeyID
 			k.KeyVal.Private = ""
 			results = append(results, do(func() error { return md.VerifySignature(k) }))
+		case "setfrac":
+			// content that cannot be represented (a non-integral number in a by-product): an envelope
+			// must refuse it AND stay as it was; a Metablock is a plain struct (assignment goes through)
+			snap := func() string {
+				b, _ := json.Marshal(md.GetPayload())
+				return string(b)
+			}
+			before := snap()
+			cls := do(func() error {
+				link, ok := md.GetPayload().(intoto.Link)
+				if !ok {
+					return nil
+				}
+				link.ByProducts = map[string]interface{}{"frac": 0.5}
+				switch m := md.(type) {
+				case *intoto.Envelope:
+					return m.SetPayload(link)
+				case *intoto.Metablock:
+					m.Signed = link
+				}
+				return nil
+			})
+			if _, env := md.(*intoto.Envelope); !env {
+				cls += ":struct" // plain struct assignment: nothing to refuse
+			} else if snap() == before {
+				cls += ":same"
+			} else {
+				cls += ":changed"
+			}
+			results = append(results, cls)
 		case "dumpload":
 			results = append(results, do(func() error {
 				if err := md.Dump(p); err != nil {
@@ -322,8 +352,9 @@ func runC04(r *Runner, tier string, rng *Rng) {
 		ln := 2 + rng.Intn(6)
 		signed := map[int]bool{}
 		mutated := false
+		isLink := rng.Bool()
 		for k := 0; k < ln; k++ {
-			switch rng.Intn(9) {
+			switch rng.Intn(10) {
 			case 0, 1:
 				ki := rng.Intn(2)
 				if mutated && signed[ki] {
@@ -352,6 +383,14 @@ func runC04(r *Runner, tier string, rng *Rng) {
 			case 5:
 				ops = append(ops, map[string]any{"op": "corrupt", "i": rng.Intn(3)})
 				feat += "co"
+			case 7:
+				if isLink {
+					ops = append(ops, map[string]any{"op": "setfrac"})
+					feat += "fr"
+					if len(signed) > 0 {
+						mutated = true
+					}
+				}
 			case 6:
 				// verification with the id of one key and the material of another must fail, also right
 				// after the genuine key verified (seeded change c04-verifier-cache-by-keyid)
@@ -372,7 +411,7 @@ func runC04(r *Runner, tier string, rng *Rng) {
 			ops = append(ops, map[string]any{"op": "verify", "key": k})
 		}
 		var payload JObj
-		if rng.Bool() {
+		if isLink {
 			payload = genLinkTree(rng, 30, rng.Chance(10))
 		} else {
 			payload = genLayoutTree(rng, 30)
@@ -384,5 +423,5 @@ func runC04(r *Runner, tier string, rng *Rng) {
 		}
 	}
 	flush()
-	r.St.Rule = "exhaustive: every sequence of length <= L over {sign k0, sign k1, dump+load, verify k0, verify k1, verify k2(other key)} followed by verify of all three keys, both wrappers, links and layouts, Ed25519/ECDSA/RSA; random: histories of length <= 7 with in-memory mutation, verification with FORGED key objects (id of one key, well-formed material of another; also right after the genuine key verified), signature corruption and signatures made by crypto/* over the standard bytes, over all key types and curves of the pool (RSA-2048, P-224/256/384/521, Ed25519). Compared per operation: ok/err/panic; finally the key ids and, for every signature present, the verdict of an independent crypto/* verification over cjson / PAE bytes. Class = (wrapper, key types, operation sequence)."
+	r.St.Rule = "exhaustive: every sequence of length <= L over {sign k0, sign k1, dump+load, verify k0, verify k1, verify k2(other key)} followed by verify of all three keys, both wrappers, links and layouts, Ed25519/ECDSA/RSA; random: histories of length <= 7 with in-memory mutation, attempts to set unrepresentable content (an envelope must refuse AND stay unchanged), verification with FORGED key objects (id of one key, well-formed material of another; also right after the genuine key verified), signature corruption and signatures made by crypto/* over the standard bytes, over all key types and curves of the pool (RSA-2048, P-224/256/384/521, Ed25519). Compared per operation: ok/err/panic; finally the key ids and, for every signature present, the verdict of an independent crypto/* verification over cjson / PAE bytes. Class = (wrapper, key types, operation sequence)."
 }
